@@ -198,7 +198,18 @@ def swallowed_failures(ctx, info):
             si = an.switch_info(n)
             if si is None or si[0].k != "discr":
                 continue
-            if any(x.k == "call" and x.site == cb and x.a[0].full == t.callee.full for x in si[0].walk()):
+            # the Result itself is what is tested: the call, under `?` (branch) and map / map_err / and_then at most -
+            # a test of `insert(..).unwrap_or_default()` looks at a value from which the failure is already gone
+            c_ = strip(si[0].a[0])
+            for _ in range(8):
+                if c_.k == "call" and c_.a[0].name == "branch" and c_.a[0].trait == "std::ops::Try" and c_.a[1]:
+                    c_ = strip(c_.a[1][0])
+                    continue
+                if c_.k == "call" and c_.a[0].name in ("map", "map_err", "and_then", "inspect", "inspect_err", "or_else") and (c_.a[0].fn or "").startswith("std::result::Result") and c_.a[1]:
+                    c_ = strip(c_.a[1][0])
+                    continue
+                break
+            if c_.k == "call" and c_.site == cb and c_.a[0].full == t.callee.full:
                 tested = True
         if not tested:
             returned = False
